@@ -91,6 +91,8 @@ class CoreMixin:
         """Names usable in contracts: live classes by simple name (ValidationError, Element, dict...)."""
         import builtins
         obj = self.spec_names.get(name)
+        if name == "NoneType":
+            obj = type(None)
         if obj is None and hasattr(builtins, name):
             obj = getattr(builtins, name)
         if obj is None:
